@@ -159,6 +159,7 @@ class SymEx:
         self.inline_filter = inline_filter
         self.notes = []
         self.temp_id = 0
+        self.loop_idx = []
 
     # ------------------------------------------------------------------ utilities
     def fresh(self, prefix):
@@ -373,6 +374,13 @@ class SymEx:
             cur = self.read(st, this_lv)
             if isinstance(cur, tuple) and cur[0] == 'obj' and cur[2] is None:
                 self.write(st, this_lv, ('obj', cur[1], v, cur[3]))
+
+    def snap(self, st, v):
+        """Replace iterators over an lvalue by iterators over the current value (for arguments of
+        opaque calls, so that the term does not depend on later writes)."""
+        if isinstance(v, tuple) and v and v[0] == 'iter' and is_lv(v[1]):
+            return ('iter', self.read(st, v[1]), v[2])
+        return v
 
     def note(self, s):
         if s not in self.notes:
@@ -703,6 +711,8 @@ class SymEx:
                     ls.why = 'iterator loop over different ranges'
         isym = sym('%s@L%d' % (self.loop_var_name(s), ls.id))
         ls.idx, ls.lo, ls.hi = isym, lo, hi
+        if lo is not None and hi is not None:
+            T.RANGES[isym] = (lo, hi)
 
         def setup(state):
             if idx_root is None:
@@ -720,6 +730,13 @@ class SymEx:
                 state.refs.pop(idx_root, None)
                 state.env[idx_root] = ('iter', iterator_loop, isym) if iterator_loop else isym
 
+        self.loop_idx.append(isym)
+        try:
+            return self.exec_loop2(st, s, ls, hdr, body, idx_root, lo, hi, elem, isym, setup)
+        finally:
+            self.loop_idx.pop()
+
+    def exec_loop2(self, st, s, ls, hdr, body, idx_root, lo, hi, elem, isym, setup):
         # pass 1: which locations does the body write?
         neff = len(self.effects)
         nloops = len(self.loops)
@@ -770,6 +787,13 @@ class SymEx:
             label = self.loc_label(st, root, fpath)
             pre = ('pre', ls.id, label)
             pres[(root, fpath)] = (label, pre)
+            try:
+                cur0 = self.read(st, ('lv', root, fpath))
+                sz = size(cur0)
+                if not (isinstance(sz, tuple) and sz[0] == 'size' and sz[1] == cur0):
+                    T.SIZES[pre] = sz
+            except Exception:
+                pass
             self.write_nolog(s2, ('lv', root, fpath), pre)
         setup(s2)
         neff = len(self.effects)
@@ -1460,7 +1484,7 @@ class SymEx:
             base = strip_targs(f.qualname) if f else name
             if f is None or f.body is None or base in self.opaque or \
                     (self.inline_filter and not self.inline_filter(f)):
-                vals = [self.eval(st, a) for a in e.k]
+                vals = [self.snap(st, self.eval(st, a)) for a in e.k]
                 r = ('hcall', base) + tuple(vals)
                 self.effect(st, 'hcall', name=base, args=vals, where=e.where(), node=e.cid,
                             targs=tuple(f.targs) if f else ())
@@ -1485,7 +1509,7 @@ class SymEx:
             n = self.fresh('u')
             self.effect(st, 'draw', gen=glv, where=e.where(), node=e.cid, callee=e.a.get('id'),
                         probe=e.a.get('probe'))
-            return ('rand', n)
+            return ('rand', n) + tuple(self.loop_idx)
         if name in ('forward', 'move', 'addressof') and len(args) == 1:
             if name == 'addressof':
                 lv = self.eval_lv(st, args[0])
@@ -1670,7 +1694,7 @@ class SymEx:
         if f.body is None or base in self.opaque or \
                 (self.inline_filter and not self.inline_filter(f)):
             obj = self.read(st, this_lv)
-            vals = [self.eval(st, a) for a in args]
+            vals = [self.snap(st, self.eval(st, a)) for a in args]
             self.effect(st, 'hcall', name=base, obj=obj, args=vals, where=e.where(), node=e.cid,
                         this_lv=this_lv, const=f.is_const)
             if not f.is_const and not f.is_static:
@@ -1843,7 +1867,7 @@ class SymEx:
                 base = strip_targs(f.qualname)
                 if base in self.opaque:
                     obj = self.read(st, this_lv)
-                    vals = [self.eval(st, a) for a in args[1:]]
+                    vals = [self.snap(st, self.eval(st, a)) for a in args[1:]]
                     self.effect(st, 'hcall', name=base, obj=obj, args=vals, where=e.where(),
                                 node=e.cid, const=f.is_const)
                     return ('hcall', base, obj) + tuple(vals)
